@@ -1132,7 +1132,13 @@ def check_C16(run, replay=None):
                             out.append("op %d: free count was unknown at mount but %d was stored" % (k, c))
                     else:
                         want = mounted_cnt + (free_now - mounted)
-                        if 0 <= want < 0xFFFFFFFF and c != want and c != 0xFFFFFFFF:
+                        stale = mounted_cnt != mounted
+                        # a count that was wrong at mount cannot always follow the delta exactly (it may pass through a
+                        # value below 0 or above 2^32-2 on the way and then becomes unknown): exactness is required of a
+                        # truthful count; a stale one may also stay as it was
+                        if stale and c in (mounted_cnt, 0xFFFFFFFF):
+                            pass
+                        elif 0 <= want < 0xFFFFFFFF and c != want:
                             out.append("op %d (%s): stored free count %d, expected %d (mounted %d, free entries %d -> %d)" % (k, " ".join(op[:2]), c, want, mounted_cnt, mounted, free_now))
                         elif 0 <= want < 0xFFFFFFFF and c == 0xFFFFFFFF and mounted_cnt != 0xFFFFFFFF:
                             pass
